@@ -170,6 +170,12 @@ def make_cases(ctx, scale=None):
     # 6. a secondary redshift: staging loads the halo files only (no particles, empty host index)
     for kind in ('decreasing', 'interleaved'):
         add(kind, [2, 2], rng.choice(flag_sets), z=0.575)
+    # 6b. equal-sized slabs, each internally ascending, read in descending order: every descent of the concatenated ids
+    # falls on a multiple of the slab size (and so on the block boundaries of any check that splits the table evenly
+    # among 2, 4, 8 or 16 threads)
+    for sizes in ([16, 16], [8, 8, 8, 8], [32, 32], [64, 64]) if quick else ([16, 16], [8, 8, 8, 8], [32, 32], [64, 64], [30] * 16,
+                                                                             [80] * 4, [50] * 3, [48] * 3, [128, 128]):
+        add('slab_decreasing', list(sizes), rng.choice(flag_sets))
     # 7. larger tables
     for _ in range(3 if quick else 25):
         n_slabs = rng.randrange(2, 5)
